@@ -197,6 +197,11 @@ Definition val_ok (k : vkind) (v : obj) : bool :=
   end.
 End Values.
 
+(* kinds whose violations the library can see: the number tree (an entry of type Any) and the name
+   dictionary (whose entries have type Any) sit where the known finding C10-any-typed-entries-unchecked
+   makes the checker skip the value *)
+Definition kind_checked (k : vkind) : bool := match k with VNumTree | VNameDict => false | _ => true end.
+
 (* must the value be behind a reference? *)
 Definition kind_indirect (k : vkind) : bool := match k with VIDict | VIStream => true | _ => false end.
 
@@ -328,49 +333,61 @@ Definition bad_type (allowed : list bytes) (v : obj) : Prop :=
 Definition kids_with_direct (ks : list kid) (v : obj) : Prop :=
   exists pre x post, direct x /\ v = OArr (pre ++ x :: post) /\ len (pre ++ x :: post) = len ks.
 
-Inductive node_violation (is_root : bool) (ks : list kid) : edit -> Prop :=
-| NV_drop_type : node_violation is_root ks (EDrop k_Type)
-| NV_drop_count : node_violation is_root ks (EDrop k_Count)
-| NV_drop_kids : node_violation is_root ks (EDrop k_Kids)
+(* /Kids with a member that refers to no object of the document (it denotes null: not a node, page or template) *)
+Definition kids_with_dangling (oc : octx) (v : obj) : Prop :=
+  exists pre j post, octx_get oc j = None /\ v = OArr (pre ++ oref j :: post).
+
+(* [full] = true: every violation the property lists.  [full] = false: without those located in a
+   dictionary entry whose declared check has type Any (/Parent given directly; a malformed number tree
+   under /PageLabels; a bad name dictionary) — the ones known finding C10-any-typed-entries-unchecked
+   says the library does not see. *)
+Inductive node_violation (full : bool) (oc : octx) (is_root : bool) (ks : list kid) : edit -> Prop :=
+| NV_drop_type : node_violation full oc is_root ks (EDrop k_Type)
+| NV_drop_count : node_violation full oc is_root ks (EDrop k_Count)
+| NV_drop_kids : node_violation full oc is_root ks (EDrop k_Kids)
 | NV_type v : bad_type (if is_root then [B "Pages"] else [B "Pages"; B "Page"; B "Template"]) v ->
-              node_violation is_root ks (ESet k_Type v)
-| NV_count v : direct v -> is_int v = false -> node_violation is_root ks (ESet k_Count v)
-| NV_kids_type v : direct v -> is_arr v = false -> node_violation is_root ks (ESet k_Kids v)
-| NV_kid_direct v : kids_with_direct ks v -> node_violation is_root ks (ESet k_Kids v)
-| NV_root_parent v : is_root = true -> node_violation is_root ks (ESet k_Parent v)         (* forbidden key added *)
-| NV_drop_parent : is_root = false -> node_violation is_root ks (EDrop k_Parent)
-| NV_parent_direct v : is_root = false -> direct v -> node_violation is_root ks (ESet k_Parent v).
+              node_violation full oc is_root ks (ESet k_Type v)
+| NV_count v : direct v -> is_int v = false -> node_violation full oc is_root ks (ESet k_Count v)
+| NV_kids_type v : direct v -> is_arr v = false -> node_violation full oc is_root ks (ESet k_Kids v)
+| NV_kid_direct v : kids_with_direct ks v -> node_violation full oc is_root ks (ESet k_Kids v)
+| NV_kid_dangling v : kids_with_dangling oc v -> node_violation full oc is_root ks (ESet k_Kids v)
+| NV_root_parent v : is_root = true -> node_violation full oc is_root ks (ESet k_Parent v)         (* forbidden key added *)
+| NV_drop_parent : is_root = false -> node_violation full oc is_root ks (EDrop k_Parent)
+| NV_parent_direct v : full = true -> is_root = false -> direct v -> node_violation full oc is_root ks (ESet k_Parent v).
 
-Inductive leaf_violation (oc : octx) (is_page : bool) : edit -> Prop :=
-| LV_drop_type : leaf_violation oc is_page (EDrop k_Type)
-| LV_type v : bad_type [B "Pages"; B "Page"; B "Template"] v -> leaf_violation oc is_page (ESet k_Type v)
-| LV_drop_parent : is_page = true -> leaf_violation oc is_page (EDrop k_Parent)
-| LV_parent_direct v : is_page = true -> direct v -> leaf_violation oc is_page (ESet k_Parent v)
-| LV_template_parent v : is_page = false -> leaf_violation oc is_page (ESet k_Parent v)      (* forbidden key added *)
-| LV_value k kd v :                                                                         (* a declared entry with a bad value *)
+Inductive leaf_violation (full : bool) (oc : octx) (is_page : bool) : edit -> Prop :=
+| LV_drop_type : leaf_violation full oc is_page (EDrop k_Type)
+| LV_type v : bad_type [B "Pages"; B "Page"; B "Template"] v -> leaf_violation full oc is_page (ESet k_Type v)
+| LV_drop_parent : is_page = true -> leaf_violation full oc is_page (EDrop k_Parent)
+| LV_parent_direct v : full = true -> is_page = true -> direct v -> leaf_violation full oc is_page (ESet k_Parent v)
+| LV_template_parent v : is_page = false -> leaf_violation full oc is_page (ESet k_Parent v)      (* forbidden key added *)
+| LV_value k kd v :                                                                              (* a declared entry with a bad value *)
+    full = true \/ kind_checked kd = true ->
     In (k, kd) (if is_page then page_table else template_table) ->
-    direct v -> val_ok oc kd v = false -> leaf_violation oc is_page (ESet k v).
+    direct v -> val_ok oc kd v = false -> leaf_violation full oc is_page (ESet k v).
 
-Inductive cat_violation (oc : octx) : edit -> Prop :=
-| CV_drop_type : cat_violation oc (EDrop k_Type)
-| CV_drop_pages : cat_violation oc (EDrop k_Pages)
-| CV_type v : bad_type [B "Catalog"] v -> cat_violation oc (ESet k_Type v)
-| CV_pages v : direct v -> is_dict v = false -> cat_violation oc (ESet k_Pages v)
-| CV_value k kd v : In (k, kd) catalog_table -> direct v -> val_ok oc kd v = false -> cat_violation oc (ESet k v)
-| CV_indirect k kd v : In (k, kd) catalog_table -> kind_indirect kd = true -> direct v -> cat_violation oc (ESet k v).
+Inductive cat_violation (full : bool) (oc : octx) : edit -> Prop :=
+| CV_drop_type : cat_violation full oc (EDrop k_Type)
+| CV_drop_pages : cat_violation full oc (EDrop k_Pages)
+| CV_type v : bad_type [B "Catalog"] v -> cat_violation full oc (ESet k_Type v)
+| CV_pages v : direct v -> is_dict v = false -> cat_violation full oc (ESet k_Pages v)
+| CV_value k kd v : full = true \/ kind_checked kd = true ->
+                    In (k, kd) catalog_table -> direct v -> val_ok oc kd v = false -> cat_violation full oc (ESet k v)
+| CV_indirect k kd v : In (k, kd) catalog_table -> kind_indirect kd = true -> direct v -> cat_violation full oc (ESet k v).
 
-(* [mutation d (oc', root')]: the emitted document with exactly one object edited into a violation
+(* [mutation full d (oc', root')]: the emitted document with exactly one object edited into a violation
    (the new value is judged in the document it sits in) *)
-Inductive mutation (d : doc) : octx * obj -> Prop :=
-| M_cat e : cat_violation (emit_ctx d) e -> mutation d (emit_ctx d, apply_edit e (emit_root d))
-| M_root e : d_pages_direct d = false -> node_violation true (d_kids d) e ->
-             mutation d (ctx_edit (d_root d) e (emit_ctx d), emit_root d)
-| M_node p i c ks ex e : In (p, KNode i c ks ex) (doc_kids d) -> node_violation false ks e ->
-             mutation d (ctx_edit i e (emit_ctx d), emit_root d)
-| M_page p i a e : In (p, KPage i a) (doc_kids d) -> leaf_violation (ctx_edit i e (emit_ctx d)) true e ->
-             mutation d (ctx_edit i e (emit_ctx d), emit_root d)
-| M_template p i a e : In (p, KTemplate i a) (doc_kids d) -> leaf_violation (ctx_edit i e (emit_ctx d)) false e ->
-             mutation d (ctx_edit i e (emit_ctx d), emit_root d).
+Inductive mutation (full : bool) (d : doc) : octx * obj -> Prop :=
+| M_cat e : cat_violation full (emit_ctx d) e -> mutation full d (emit_ctx d, apply_edit e (emit_root d))
+| M_root e : d_pages_direct d = false -> node_violation full (ctx_edit (d_root d) e (emit_ctx d)) true (d_kids d) e ->
+             mutation full d (ctx_edit (d_root d) e (emit_ctx d), emit_root d)
+| M_node p i c ks ex e : In (p, KNode i c ks ex) (doc_kids d) ->
+             node_violation full (ctx_edit i e (emit_ctx d)) false ks e ->
+             mutation full d (ctx_edit i e (emit_ctx d), emit_root d)
+| M_page p i a e : In (p, KPage i a) (doc_kids d) -> leaf_violation full (ctx_edit i e (emit_ctx d)) true e ->
+             mutation full d (ctx_edit i e (emit_ctx d), emit_root d)
+| M_template p i a e : In (p, KTemplate i a) (doc_kids d) -> leaf_violation full (ctx_edit i e (emit_ctx d)) false e ->
+             mutation full d (ctx_edit i e (emit_ctx d), emit_root d).
 
 (* ---------- 5. looking inside a specification (for the finite facts about the dump) ---------- *)
 Inductive step := SKey (k : bytes) | SElem | SAlt (i : nat).
